@@ -197,6 +197,20 @@ func (e *enc) run() {
 	for _, b := range e.rpo() {
 		e.block(b)
 	}
+	// vacuity guard: a call-site or loop clause that names a call site / loop the function does not have states nothing
+	if e.fc != nil && !e.discover {
+		for _, ca := range e.fc.CallAsrt {
+			if !e.matchedCA[ca] {
+				e.errf("%s: clause 'at call %s#%d' (%s) matches no call site", e.name, ca.Callee, ca.CallK, clauseName(ca))
+			}
+		}
+		nLoops := len(e.loops)
+		for k := range e.fc.Loops {
+			if k >= nLoops {
+				e.errf("%s: loop#%d clause but the function has %d loops", e.name, k, nLoops)
+			}
+		}
+	}
 	e.finishFrames()
 }
 
@@ -467,13 +481,42 @@ func (e *enc) loopEnv(h *ssa.BasicBlock, phiOverride map[*ssa.Phi]Val) *Env {
 	return &Env{vars: vars, cur: e.state, old: e.initSt, e: e}
 }
 
+// enclosingReach: reach condition of the header of the innermost loop that contains b (other than self); "true" at
+// function level. entered_when / reached_when conditions are stated relative to one execution of that loop's body.
+func (e *enc) enclosingReach(b *ssa.BasicBlock, self *loopInfo) string {
+	var best *loopInfo
+	var bestH *ssa.BasicBlock
+	for h, li := range e.loops {
+		if li == self || !li.blocks[b] {
+			continue
+		}
+		if best == nil || len(li.blocks) < len(best.blocks) {
+			best, bestH = li, h
+		}
+	}
+	if best == nil {
+		return "true"
+	}
+	// the header was reached and its loop condition let this iteration in
+	var conds []string
+	for _, s := range bestH.Succs {
+		if best.blocks[s] && s != bestH {
+			conds = append(conds, e.edgeCond(bestH, s))
+		}
+	}
+	if len(conds) == 0 {
+		return e.reach[bestH]
+	}
+	return or(conds...)
+}
+
 func (e *enc) loopClauses(li *loopInfo) (inv []*Clause, dec *Clause) {
 	if e.fc != nil {
 		for _, c := range e.fc.Loops[li.ord] {
 			switch c.Kind {
 			case "decreases":
 				dec = c
-			case "exhaustive":
+			case "exhaustive", "entered_when":
 			default:
 				inv = append(inv, c)
 			}
@@ -598,6 +641,13 @@ func (e *enc) loopHead(h *ssa.BasicBlock, li *loopInfo, entryPhi func(*ssa.Phi) 
 	}
 	if e.fc != nil {
 		for _, c := range e.fc.Loops[li.ord] {
+			if c.Kind == "entered_when" {
+				g := e.trBool(c.E, envIn, fmt.Sprintf("loop#%d entered_when", li.ord))
+				saved := e.curReach
+				e.curReach = "true"
+				e.oblige1("assert", fmt.Sprintf("loop#%d entered %s", li.ord, clauseName(c)), c.Props, c.Src, "(=> "+and(g, e.enclosingReach(h, li))+" "+saved+")", token.NoPos)
+				e.curReach = saved
+			}
 			if c.Kind == "exhaustive" {
 				// marker (keeps the label alive when the loop has no leaving edge to check); the edges are checked in exhaustiveChecks
 				e.oblige1("assert", fmt.Sprintf("loop#%d exhaustive %s declared", li.ord, clauseName(c)), c.Props, "the loop is declared exhaustive", "true", token.NoPos)
